@@ -2,6 +2,7 @@ package hx
 
 import (
 	"fmt"
+	"os"
 	"strings"
 	"testing"
 
@@ -206,7 +207,11 @@ func TestC10_MgrxCleanup(t *testing.T) {
 			r2.syncAll()
 			calls := r2.tr.Since(tr0)
 			if rerr != nil || !ok || st2.Status() != terminalOf(before.Status) {
-				mfail(t, log, "C10/cleanup-restart", "restart of a channel persisted in %s: err=%v settled=%v", datatransfer.Statuses[before.Status], rerr, ok)
+				key := "C10/cleanup-restart"
+				if p := os.Getenv("VERIF_PROP"); p == "C06" || p == "C09" {
+					key = p + "/cleanup-not-finished-on-restart"
+				}
+				mfail(t, log, key, "restart of a channel persisted in %s: err=%v settled=%v", datatransfer.Statuses[before.Status], rerr, ok)
 			}
 			if r2.net.SentLen() != sent0 || countKind(calls, "open", c.chid) != 0 || countKind(calls, "cleanup", c.chid) != 1 {
 				mfail(t, log, "C10/cleanup-restart-effects", "restart in a cleanup status sent %d messages, opened %d, cleaned up %d time(s)", r2.net.SentLen()-sent0, countKind(calls, "open", c.chid), countKind(calls, "cleanup", c.chid))
@@ -215,6 +220,11 @@ func TestC10_MgrxCleanup(t *testing.T) {
 			checked++
 		}
 		sp.Eval()
+		if p := os.Getenv("VERIF_PROP"); p == "C06" || p == "C09" {
+			stats.For(p).Eval()
+			stats.For(p).Class("manager_restart_of_channel_persisted_in_cleanup_status")
+			stats.For(p).Nontrivial(stats.FP("mgr-cleanup-restart", p, withError, ending, c.role))
+		}
 		if checked > 0 {
 			fp := stats.FP("cleanup", c.role, withError, ending)
 			sp.Nontrivial(fp)
